@@ -1,4 +1,97 @@
-From C32 Require Import Model.
-Theorem placeholder_to_be_replaced : True.
-Proof. exact I. Qed.
-Print Assumptions placeholder_to_be_replaced.
+(** C32 property theorems (nothing else lives here; each is closed by [exact]).
+
+    Model: coq/Lib/WireDns.v (hand-written from twisted/names/dns.py, with the REPAIRED Name.encode of
+    fixes/C32-name-encode-limits.patch); definitions used in the statements: coq/C32/Model.v.
+    [M] is always the complete message as the decoder sees it; positions are absolute offsets;
+    [at_ M p x] = the bytes x sit at offset p of M; [bytes_ok M] = every element is below 256. *)
+From Coq Require Import List NArith ZArith Bool.
+From TwLib Require Import PyInt WireIter WireDns WireDnsTotal.
+From C32 Require Import Model ProofsName ProofsMsg ProofsBytes ProofsTrunc.
+Import ListNotations.
+Open Scope N_scope.
+
+(** a name written by Name.encode at any position of any message, under ANY state of the compression
+    dictionary that satisfies the dictionary invariant, is read back by Name.decode exactly, the
+    reader ends right behind it, and the dictionary handed on satisfies the invariant again *)
+Theorem name_roundtrip_with_compression :
+  forall (M : list N) (compress : bool) (ls : list label) (pos : N) (d : dict) (b : list N) (d' : dict),
+  bytes_ok M -> name_ok ls -> enc_name compress ls pos d = Ok (b, d') -> dict_inv M pos d -> at_ M pos b ->
+  dec_name M pos = Done (ls, pos + blen b) /\ dict_inv M (pos + blen b) d'.
+Proof. intros M c ls pos d b d'. exact (name_roundtrip M c ls pos d b d'). Qed.
+Print Assumptions name_roundtrip_with_compression.
+
+(** what the encoder writes for a name is RFC 1035 wire format: labels of 1..63 bytes ended by a zero
+    byte or by a pointer below 2^14 to an earlier name ([nbe], Model.v) *)
+Theorem encoded_name_is_rfc1035 :
+  forall (M : list N) (compress : bool) (ls : list label) (pos : N) (d : dict) (b : list N) (d' : dict),
+  name_ok ls -> enc_name compress ls pos d = Ok (b, d') -> dict_inv M pos d -> at_ M pos b ->
+  nbe M pos pos ls (pos + blen b).
+Proof. intros M c ls pos d b d'. exact (encoded_name_nbe M c ls pos d b d'). Qed.
+Print Assumptions encoded_name_is_rfc1035.
+
+(** a name that cannot be represented is refused when encoding (the repaired behaviour): more than
+    255 bytes on the wire, or a label of more than 63 bytes *)
+Theorem unrepresentable_name_refused :
+  forall (M : list N) (compress : bool) (ls : list label) (pos : N) (d : dict),
+  (255 < wire_len ls -> enc_name compress ls pos d = Err ValueError) /\
+  (Exists (fun l => 63 < blen l) ls -> dict_inv M pos d -> enc_name compress ls pos d = Err ValueError).
+Proof. exact refusal. Qed.
+Print Assumptions unrepresentable_name_refused.
+
+(** generic, once for all record layouts: a list of fields described by a schema whose "rest of the
+    rdata" field (if any) is last and preceded by fixed-size fields ([rest_ok]) decodes to the values
+    encoded, given the rdlength of the whole rdata *)
+Theorem schema_roundtrip :
+  forall (M : list N) (ts : list fty) (vs : list fval) (pos : N) (d : dict) (b : list N) (d' : dict) (rdlen : N),
+  bytes_ok M -> wf_fields ts vs -> enc_fields ts vs pos d = Ok (b, d') -> rest_ok (Some 0) ts = true ->
+  rdlen = blen b -> at_ M pos b -> dict_inv M pos d ->
+  dec_fields M ts pos rdlen = Done (vs, pos + blen b) /\ dict_inv M (pos + blen b) d'.
+Proof. exact schema_roundtrip_lemma. Qed.
+Print Assumptions schema_roundtrip.
+
+(** every layout in the record table (and UnknownRecord) is such a schema *)
+Theorem every_record_schema_is_usable : forall ty : N, rest_ok (Some 0) (schema_of ty) = true.
+Proof. exact schema_rest_ok. Qed.
+Print Assumptions every_record_schema_is_usable.
+
+(** a resource record (header, rdlength patched in, payload of its type) *)
+Theorem rr_roundtrip :
+  forall (M : list N) (r : rr) (pos : N) (d : dict) (b : list N) (d' : dict),
+  bytes_ok M -> wf_rr r -> enc_rr r pos d = Ok (b, d') -> at_ M pos b -> dict_inv M pos d ->
+  dec_rr M pos = Done (r, pos + blen b) /\ dict_inv M (pos + blen b) d'.
+Proof. intros M r pos d b d' BO. exact (rr_ok M BO r pos d b d'). Qed.
+Print Assumptions rr_roundtrip.
+
+(** a whole message that fits its size limit (maxSize 0 = none): Message.toStr then Message.fromStr
+    gives back exactly the message - header flags, queries and the three record sections, with all
+    the name compression the encoder applied.  [message_bytes m]: every label, address, string and
+    opaque payload consists of bytes (< 256). *)
+Theorem message_roundtrip :
+  forall (m : message) (maxSize : N) (body b : list N),
+  wf_message m -> message_bytes m -> enc_body m = Ok body -> (maxSize = 0 \/ blen body + 12 <= maxSize) ->
+  enc_message m maxSize = Ok b ->
+  dec_message b = Done m.
+Proof. exact message_roundtrip_closed. Qed.
+Print Assumptions message_roundtrip.
+
+(** a message larger than its size limit is encoded in exactly maxSize bytes (within the limit), and
+    decoding that yields the header of the original with the truncation flag set and a PREFIX of the
+    original records: all queries, answers, ... up to some point, nothing after it (k1..k4 count the
+    records kept per section; a section that is not complete is followed by empty ones; at least one
+    record is missing).  The record that is cut ends the decoding with EOFError, which parseRecords
+    turns into "stop here". *)
+Theorem truncated_is_prefix_and_flagged :
+  forall (m : message) (maxSize : N) (body b : list N),
+  wf_message m -> message_bytes m -> enc_body m = Ok body -> 12 <= maxSize -> maxSize < blen body + 12 ->
+  enc_message m maxSize = Ok b ->
+  blen b = maxSize /\
+  exists k1 k2 k3 k4,
+    dec_message b = Done (mkM (set_trunc (m_hdr m) 1) (firstn k1 (m_queries m)) (firstn k2 (m_answers m))
+                              (firstn k3 (m_authority m)) (firstn k4 (m_additional m)))
+    /\ ((k1 < length (m_queries m))%nat -> k2 = 0%nat /\ k3 = 0%nat /\ k4 = 0%nat)
+    /\ ((k2 < length (m_answers m))%nat -> k3 = 0%nat /\ k4 = 0%nat)
+    /\ ((k3 < length (m_authority m))%nat -> k4 = 0%nat)
+    /\ ((k1 < length (m_queries m))%nat \/ (k2 < length (m_answers m))%nat \/ (k3 < length (m_authority m))%nat
+        \/ (k4 < length (m_additional m))%nat).
+Proof. exact truncated_full. Qed.
+Print Assumptions truncated_is_prefix_and_flagged.
